@@ -252,14 +252,16 @@ deriving DecidableEq, Repr
 structure Ghost where
   acked : List Doc := []        -- every document whose Add/AddWithID returned nil (all sessions)
   sess : List Doc := []         -- … in the current session
-  removed : List Id := []       -- every id whose Remove returned nil
+  removed : List Id := []       -- every id whose Remove EVER returned nil
+  gone : List Id := []          -- ids whose latest acknowledged operation is a Remove (an
+                                -- acknowledged re-add takes the id out again)
   promised : List Doc := []     -- documents acknowledged (and not removed) by a store instance
                                 -- before one of its Flush()/Close() calls returned nil: what the
                                 -- property promises to every later reopen
   loadLost : Bool := false      -- a segment load replaced shared content holding a live
                                 -- document that the loaded segment lacks (trigger of D13)
   revived : Bool := false       -- a segment load published (made live again) a document whose
-                                -- Remove had returned nil (another face of D13)
+                                -- latest acknowledged operation is a Remove (another face of D13)
   readded : Bool := false       -- an id was added twice (histories of the harness never do)
   compacted : Bool := false     -- a compaction wrote or swapped (trigger of D14)
   everNamed : List Nat := []    -- every segment id that ever named a file
@@ -410,7 +412,7 @@ def segEvent (cfg : Cfg) (fs : FS) (q : Q) (st : SearchSt) : SegEv → SearchSt
                 -- counted when the open phase passed and ReadFrom was entered
                 loads := st.loads + (if (openAll fs id (comps cfg.tpl)).isSome then 1 else 0),
                 gh := { st.gh with loadLost := st.gh.loadLost || !T'.coversLive st.T,
-                                   revived := st.gh.revived || T'.livesAny st.gh.removed } }
+                                   revived := st.gh.revived || T'.livesAny st.gh.gone } }
     | _ => st
   | .scan id =>
     match isCached st.segs id with
@@ -452,6 +454,7 @@ def execAdd (s : Store) (d : Doc) : Store × Out :=
   ({ s1 with T := s1.T.add i, mts := mts,
              flushSig := s1.flushSig || decide (s1.cfg.flushThr ≤ totalSize mts),
              gh := { s1.gh with acked := d :: s1.gh.acked, sess := d :: s1.gh.sess,
+                                gone := s1.gh.gone.filter fun j => j != d.id,
                                 readded := s1.gh.readded || (s1.gh.acked.any fun a => a.id == d.id) } }, .ok)
 
 def execRemove (s : Store) (id : Id) : Store × Out :=
@@ -468,6 +471,7 @@ def execRemove (s : Store) (id : Id) : Store × Out :=
       | .ok T' =>
         ({ s with T := T', mts := modifyLast (fun m => { m with info := m.info.filter fun j => j.id != id }) s.mts,
                   gh := { s.gh with removed := id :: s.gh.removed,
+                                    gone := id :: s.gh.gone.filter fun j => j != id,
                                     sess := s.gh.sess.filter fun d => d.id != id } }, .ok)
 
 /-- client `Flush()`. With `flushRotatesMutable` (the D12 repair) a non-empty mutable
@@ -540,7 +544,7 @@ def execBg (s : Store) : Bg → Store × Out
       | some false =>
         let (ok, T') := loadSeg s.cfg.tpl s.fs id s.T
         let gh := { s.gh with loadLost := s.gh.loadLost || !T'.coversLive s.T,
-                              revived := s.gh.revived || T'.livesAny s.gh.removed }
+                              revived := s.gh.revived || T'.livesAny s.gh.gone }
         if ok then ({ s with T := T', segs := setCached s.segs id true, cw := .loading srcs rest, gh := gh }, .ok)
         else ({ s with T := T', cw := .idle, gh := gh }, .ok)   -- "failed to load segment": compaction gives up
       | _ => ({ s with cw := .loading srcs rest }, .ok)
